@@ -755,7 +755,7 @@ def probe_known(ctx):
     if cls != "ok":
         ctx.violation({"class": "percentile-interpolated-index-out-of-range", "how": "mlr -n put 'end{print percentiles([1,2,3,4,5],[200],{\"interpolate_linearly\":true})}'",
                        "input": "percentiles([1,2,3,4,5],[200],{\"interpolate_linearly\":true})", "observed": cls + ": " + err.decode("utf-8", "replace")[:300],
-                       "expected": "the value clamped to the last element (5), as the non-interpolated form does; theorem C10_interpolated_percentile_clamps_outside_refuted"})
+                       "expected": "the value clamped to the last element (5), as the non-interpolated form does; theorem C10_interpolated_percentile_never_out_of_range"})
     # 4. fraction: a value field first seen in a LATER record of an existing group writes into a nil map
     recs = [[("z", "2")], [("z", "3"), ("y", "4")]]
     s4 = {"verb": "fraction", "fs": ["z", "y"], "gs": [], "p": False, "c": False}
